@@ -10,4 +10,4 @@ for p in "$@"; do
   o=$(cd /verif && MATID_REPO=$wt VERIF_OUT=$out VERIF_SEED=${VERIF_SEED:-0} ./check $p --tier ${TIER:-quick} 2>&1); rc=$?
   echo "$name $p rc=$rc viol_lines=$(echo "$o" | grep -c '^VIOLATION') :: $(echo "$o" | grep -m1 'reason:') :: $(echo "$o" | tail -1)"
 done
-git -C /repo worktree remove --force $wt; rm -rf "$out"
+git -C /repo worktree remove --force $wt; if [ -n "$KEEP" ]; then mkdir -p "$KEEP"; cp -r "$out"/replays "$KEEP"/ 2>/dev/null; fi; rm -rf "$out"
